@@ -585,6 +585,12 @@ func mainProp(prop string, cfg propCfg, tier string, seed uint64, replay, scratc
 	newViol := 0
 	knownHit := map[string]bool{}
 	os.MkdirAll(filepath.Join(verifDir, "replays"), 0o755)
+	// replay files of earlier invocations for this property are stale
+	if old, _ := filepath.Glob(filepath.Join(verifDir, "replays", prop+"-*.json")); true {
+		for _, f := range old {
+			os.Remove(f)
+		}
+	}
 	// minimise the tapes of new signatures in parallel (at most 8 jobs)
 	{
 		var wg sync.WaitGroup
